@@ -45,6 +45,10 @@ EXPLANATION = (
     "returns a counterexample (no representable point can meet the success test although the sign change is bracketed to the "
     "last bit); the witness is replayed on the real brentsroot in that dtype and transported to float64 on the real code.")
 ASSUMPTIONS = [
+    "wide-bracket instances (jump-wide-*): concrete bracket [-1/4, -1/4 +- 2^K*tol] with the default tolerance, jump of unit height at a + rho*w with rho symbolic in "
+    "[rho0, rho0 + 2^-(K+3)] (a window of tol/8), rho0 in {3/10, 5/16, 1/3, 1/1024, 1023/1024}: the long run of ~K halvings is decided for every jump position of the window",
+    "fp-overflow instances: z3 (QF_FP) chooses s, d, a < b in float16 / float32 with f(x) = fl(fl(s*x) - d) finite and of opposite sign at both ends and fl(f(a)*f(b)) infinite; "
+    "the REAL solvers run on that witness in that dtype (a solver-chosen corner, not a statement over all floats)",
     "real arithmetic (IEEE rounding only in the separate QF_FP lemma); every float constant enters with its exact binary value",
     "unwinding assumption |b - a| <= 2^k * tol (k per instance, see bounds / instance ids); the check 'terminates before the "
     "iteration cap' fails if the 64-evaluation cap is reached under it",
@@ -69,7 +73,8 @@ BOUNDS = {
 OUTSIDE = ["general continuous functions (only the families above); quadratic instances may end inconclusive (quotient terms)",
            "float64 bit-level behaviour of the full loop (only the acceptance predicate of the return statement is treated "
            "bit-precisely)", "vector lengths 4..16", "callable (non-list) form of brentsrootvec and accepts_mask",
-           "brackets wider than 2^k * tol (more than k halvings)", "NaN/inf function values or bracket ends; zero-width brackets"]
+           "brackets wider than 2^k * tol with symbolic width (wide brackets are covered for the concrete widths 2^K*tol of the jump-wide instances only)",
+           "NaN/inf function values or bracket ends; zero-width brackets"]
 
 SCALES = [1e-6, 1e-3, 1.0, 10.0, 1e3, 1e9]
 
